@@ -151,8 +151,12 @@ def run_case(case) -> Result:
         if x.pythonize() != a or type(x.pythonize()) is not ipaddress.IPv4Address:
             return Result("IpAddress(%s).pythonize() == %r" % (a, x.pythonize()), nt, cls)
         raw = bytes(x)
-        if raw != b"\x40\x04" + a.packed:
-            return Result("bytes(IpAddress(%s)) == %s, expected 4004%s" % (a, raw.hex(), a.packed.hex()), nt, cls)
+        try:
+            t, content = vber.read_one(raw)          # (any definite length form)
+        except vber.BerError as e:
+            return Result("bytes(IpAddress(%s)) = %s is not BER: %s" % (a, raw.hex(), e), nt, cls)
+        if t != vber.T_IPADDR or content != a.packed:
+            return Result("bytes(IpAddress(%s)) == %s, expected tag 40 and content %s" % (a, raw.hex(), a.packed.hex()), nt, cls)
         y, _ = x_decode(raw)
         if type(y) is not IpAddress or y.value != a or y.pythonize() != a:
             return Result("decode(bytes(IpAddress(%s))) == %r" % (a, y), nt, cls)
